@@ -74,6 +74,10 @@ def make_doc(seed: int) -> tuple[dict, dict]:
             toggles[t] = True
     g = docgen.DocGen(r, toggles=toggles, size=r.choice(["small", "medium", "medium"]), profile="schemas")
     g.ref_weight = 8.0
+    g.max_ops = r.choice([2, 4, 6])  # enough operations for bodies/parameters/responses shared between paths
+    for t in ("multipart", "form", "shared_body_models"):
+        if r.random() < 0.7:
+            toggles[t] = True
     if r.random() < 0.5:
         g.ct_overrides = dict(CT_OVERRIDES)
     doc = g.document()
